@@ -608,6 +608,83 @@ fn c09_for(cx: &Ctx, si: usize) -> Vec<Finding> {
             }
         }
     }
+    // Pull routing: every Pull a member receives is either the relay of one sink Pull (exactly one relay per sink
+    // Pull, to the member that is current) or the single re-issue inside its own greeting
+    {
+        let is_member = |pup: u8, inst: u16| ms.insts.iter().flatten().any(|i| i.pup == pup && i.inst == inst);
+        let causes = pulls_by_cause(cx, |s| {
+            is_sink_pull(s) || matches!(&s.site, Site::PupSend { msg: M::Handshake, pup, inst } if is_member(*pup, *inst))
+        });
+        for inst in ms.insts.iter().flatten() {
+            let Some(g) = inst.greeted_at else { continue };
+            let gs = span_at(cx, g);
+            let reissued = causes
+                .iter()
+                .filter(|(p, c)| {
+                    *c == Some(gs) && matches!(&cx.ix.spans[*p].site, Site::PupRecv { pup, inst: k, .. } if *pup == inst.pup && *k == inst.inst)
+                })
+                .count();
+            if reissued > 1 {
+                out.push(finding("C09", "C09:pull-reissued-twice", format!("member p{}.{} was pulled {reissued} times inside its greeting", inst.pup, inst.inst), g));
+            }
+        }
+        for (p, c) in &causes {
+            let Site::PupRecv { pup, inst, .. } = &cx.ix.spans[*p].site else { continue };
+            if !is_member(*pup, *inst) {
+                continue;
+            }
+            let at = cx.ix.spans[*p].start;
+            match c {
+                None => out.push(finding("C09", "C09:spontaneous-pull", format!("p{pup}.{inst} received a Pull at #{at} that neither a sink Pull nor its own greeting caused"), at)),
+                Some(ci) => {
+                    // a greeting may only pull the member that is greeting
+                    if let Site::PupSend { pup: gp, inst: gi, .. } = &cx.ix.spans[*ci].site {
+                        if (gp, gi) != (pup, inst) {
+                            out.push(finding("C09", "C09:pull-misrouted", format!("p{pup}.{inst} was pulled inside the greeting of p{gp}.{gi}"), at));
+                        }
+                    }
+                }
+            }
+        }
+        for (xi, x) in cx.ix.spans.iter().enumerate() {
+            if !matches!(&x.site, Site::SinkSend { msg: M::Pull, sink, sub: k } if *sink == sub.sink && *k == sub.sub) {
+                continue;
+            }
+            if x.end >= cx.h.log.len() && truncated {
+                continue;
+            }
+            let got: Vec<(u8, u16)> = causes
+                .iter()
+                .filter(|(_, c)| *c == Some(xi))
+                .filter_map(|(p, _)| if let Site::PupRecv { pup, inst, .. } = &cx.ix.spans[*p].site { Some((*pup, *inst)) } else { None })
+                .filter(|(p, i)| is_member(*p, *i))
+                .collect();
+            // the member that is current when the Pull begins: greeted, not ended, not terminated
+            let current: Vec<(u8, u16)> = ms
+                .insts
+                .iter()
+                .flatten()
+                .filter(|i| i.greeted_at.map_or(false, |g| g < x.start) && i.live_at(x.start))
+                .map(|i| (i.pup, i.inst))
+                .collect();
+            let ok = if !sub.live_at(x.start) {
+                true // C03/C04 territory
+            } else if current.len() == 1 {
+                got == current
+            } else {
+                // between members (the next one has not greeted yet) nothing can be pulled
+                got.is_empty() || current.len() > 1
+            };
+            if !ok {
+                out.push(finding(
+                    "C09",
+                    "C09:pull-routing",
+                    format!("sink Pull at #{}: the current member is {current:?} but the Pull was relayed to {got:?}", x.start),
+                    x.start,
+                ));
+            }
+        }
+    }
     // completion after the last member
     let last_done = ms.insts[n - 1].and_then(|p| match &p.ended_at {
         Some((e, M::Terminate)) if sub.live_at(*e) => Some(*e),
